@@ -134,7 +134,14 @@ def _property_expression(fn) -> ast.AST | None:
     if not body or not isinstance(body[-1], ast.Return) or body[-1].value is None:
         return None
     env: dict[str, ast.AST] = {}
+    guards: list[tuple[ast.AST, ast.AST]] = []  # guard clauses `if T: return V` (no else): the body is `V1 if T1 else (V2 if T2 else ... E)`
     for st in body[:-1]:
+        if isinstance(st, ast.If) and not st.orelse and len(st.body) == 1 and isinstance(st.body[0], ast.Return) and st.body[0].value is not None \
+                and not any(isinstance(x, (ast.Await, ast.Yield, ast.YieldFrom, ast.NamedExpr)) for x in ast.walk(st)):
+            guards.append((_SubstNamesOnly(env).visit(copy.deepcopy(st.test)), _SubstNamesOnly(env).visit(copy.deepcopy(st.body[0].value))))
+            continue
+        if guards:
+            return None  # a binding after a guard clause would be evaluated before the guard once written out: leave such bodies to the statement form
         if isinstance(st, ast.Assign) and len(st.targets) == 1 and isinstance(st.targets[0], ast.Name):
             nm, val = st.targets[0].id, st.value
         elif isinstance(st, ast.AnnAssign) and isinstance(st.target, ast.Name) and st.value is not None:
@@ -146,7 +153,10 @@ def _property_expression(fn) -> ast.AST | None:
         if any(isinstance(x, ast.Call) and (x.func.attr if isinstance(x.func, ast.Attribute) else getattr(x.func, 'id', None)) not in _PURE_OBSERVERS for x in ast.walk(val)):
             return None  # only calls that observe (a size, a flag, a type) may move to where the local is read
         env[nm] = _SubstNamesOnly(env).visit(copy.deepcopy(val))
-    return _SubstNamesOnly(env).visit(copy.deepcopy(body[-1].value))
+    out = _SubstNamesOnly(env).visit(copy.deepcopy(body[-1].value))
+    for t, v in reversed(guards):
+        out = ast.IfExp(test=t, body=v, orelse=out)
+    return out
 
 
 class _SubstNamesOnly(ast.NodeTransformer):
